@@ -1,6 +1,7 @@
 //! One module per property.
 
 pub mod c01;
+pub mod c04;
 pub mod c19;
 pub mod c20;
 pub mod cpusweep;
@@ -14,6 +15,7 @@ pub fn run(id: &str, tier: &str) -> i32 {
   match id {
     "C01" => c01::run("C01", tier),
     "C02" => c01::run("C02", tier),
+    "C04" => c04::run(tier),
     "C05" => cpusweep::run("C05", tier),
     "C06" => cpusweep::run("C06", tier),
     "C13" => c13::run(tier),
@@ -52,7 +54,12 @@ pub fn replay(id: &str, path: &str) -> i32 {
   2
 }
 
-pub fn worker(id: &str, _args: &[String]) -> i32 {
-  eprintln!("no worker mode for {}", id);
-  2
+pub fn worker(id: &str, args: &[String]) -> i32 {
+  match id {
+    "C04" => c04::worker(args),
+    _ => {
+      eprintln!("no worker mode for {}", id);
+      2
+    },
+  }
 }
